@@ -221,6 +221,36 @@ def check_status_groups(ctx, year, cat, fname, form):
                               {'year': year, 'form': fname, 'target': stem})
 
 
+def check_yes_no_pairs(ctx, year, cat, fname, form):
+    """two boxes named ...yes / ...no (N.C. forms) are one question: the same line drives both and for each of its two
+    values exactly one of them is on"""
+    pairs = {}
+    for m in form.pdf_fields():
+        if isinstance(m, hpf.ButtonPDFField):
+            mm = re.match(r'^(.*?)\d*(yes|no)$', m.pdf_field_name, re.I)
+            if mm:
+                pairs.setdefault(mm.group(1), {}).setdefault(mm.group(2).lower(), []).append(m)
+    for stem, d in sorted(pairs.items()):
+        if len(d.get('yes', [])) != 1 or len(d.get('no', [])) != 1:
+            continue
+        y, n_ = d['yes'][0], d['no'][0]
+        ctx.case()
+        ctx.nt(f'{year}|{fname}|{stem}|yes-no')
+        case = {'year': year, 'form': fname, 'target': stem}
+        if y.field_name != n_.field_name:
+            ctx.violation(f'{year}:{fname.split(":")[0]}:{stem}:yes-no-pair', f'{year} {fname}: the boxes {y.pdf_field_name} / {n_.pdf_field_name} answer one question but are driven by '
+                          f'different lines ({y.field_name} / {n_.field_name})', case)
+            continue
+        name = y.field_name if '.' in y.field_name else f'{fname}.{y.field_name}'
+        line = cat.lines.get(name)
+        if line is None:
+            continue
+        for val in (True, False):
+            on = [m.pdf_field_name for m in (y, n_) if m.value(val, line) != 'Off']
+            if len(on) != 1 or (val and on != [y.pdf_field_name]) or (not val and on != [n_.pdf_field_name]):
+                ctx.violation(f'{year}:{fname.split(":")[0]}:{stem}:yes-no-pair', f'{year} {fname}: with {y.field_name} = {val} the boxes on are {on}', case)
+
+
 def run(ctx):
     for year in catalog.YEARS:
         cat = catalog.get(year)
@@ -229,6 +259,7 @@ def run(ctx):
                 continue
             check_form(ctx, year, cat, fname, form)
             check_status_groups(ctx, year, cat, fname, form)
+            check_yes_no_pairs(ctx, year, cat, fname, form)
     ctx.exhaustive = True
     p = catalog.get(2023).forms['1040'].pdf_file()
     xf = pdf.xfa_fields(p)
@@ -241,3 +272,4 @@ def replay(ctx, case):
     cat = catalog.get(case['year'])
     check_form(ctx, case['year'], cat, case['form'], cat.forms[case['form']])
     check_status_groups(ctx, case['year'], cat, case['form'], cat.forms[case['form']])
+    check_yes_no_pairs(ctx, case['year'], cat, case['form'], cat.forms[case['form']])
